@@ -112,6 +112,9 @@ func localise(src, mode string, toks []lexer.Token, i int, rule string) string {
 	}
 	cur := toks[i]
 	at := "at:" + tokClass(cur.Type())
+	if s, e := cur.Start(), cur.End(); s >= 0 && e <= len(src) && s <= e && strings.HasPrefix(src[s:e], "<<<") {
+		at = "at:heredoc-" + tokClass(cur.Type())
+	}
 	inRange := func(a, b int) bool { return a >= 0 && b <= len(src) && a <= b }
 	gapStart := 0
 	prevMulti := ""
